@@ -14,4 +14,281 @@ theorem append_ne_of_not_prefix {a b x y : Bytes} (h1 : ¬ a <+: b) (h2 : ¬ b <
   · exact h1 h
   · exact h2 h
 
+/-! ## list helpers -/
+
+/-- if `f` determines `g`, equal `f`-images give equal `g`-images -/
+theorem map_eq_of_map_eq {α β γ} {f : α → β} {g : α → γ} (hfg : ∀ a a', f a = f a' → g a = g a') :
+    ∀ {l l' : List α}, l.map f = l'.map f → l.map g = l'.map g
+  | [], [], _ => rfl
+  | [], _ :: _, h => by simp at h
+  | _ :: _, [], h => by simp at h
+  | a :: l, a' :: l', h => by
+    simp only [List.map_cons, List.cons.injEq] at h ⊢
+    exact ⟨hfg a a' h.1, map_eq_of_map_eq hfg h.2⟩
+
+theorem map_inj_of_inj {α β} {f : α → β} (hf : ∀ a a', f a = f a' → a = a') {l l' : List α}
+    (h : l.map f = l'.map f) : l = l' := by
+  have := map_eq_of_map_eq (g := id) (fun a a' h => hf a a' h) h
+  simpa using this
+
+/-! ## value trees are injective -/
+
+theorem curVal_inj {n m : Nat} (h : curVal n = curVal m) : n = m := by
+  simp only [curVal, rec, Val.pair.injEq, Val.nat.injEq, and_true] at h
+  have h1 := Nat.div_add_mod n W64
+  have h2 := Nat.div_add_mod m W64
+  rw [h.1, h.2] at h1
+  omega
+
+theorem scoVal_inj {a b : SiacoinOutput} (h : scoVal a = scoVal b) : a = b := by
+  simp only [scoVal, rec, Val.pair.injEq, Val.bytes.injEq, and_true] at h
+  cases a; cases b
+  simp only [SiacoinOutput.mk.injEq]
+  exact ⟨curVal_inj h.1, h.2⟩
+
+theorem sfoVal_inj {a b : SiafundOutput} (h : sfoVal a = sfoVal b) : a = b := by
+  simp only [sfoVal, rec, Val.pair.injEq, Val.bytes.injEq, Val.nat.injEq, and_true] at h
+  cases a; cases b
+  simp only [SiafundOutput.mk.injEq]
+  exact h
+
+theorem bytesList_inj {l l' : List Bytes} (h : l.map Val.bytes = l'.map Val.bytes) : l = l' :=
+  map_inj_of_inj (fun a a' h => by simpa using h) h
+
+theorem fcVal_inj {a b : V2FileContract} (h : fcVal a = fcVal b) : a = b := by
+  simp only [fcVal, rec, Val.pair.injEq, Val.bytes.injEq, Val.nat.injEq, and_true] at h
+  obtain ⟨h1, h2, h3, h4, h5, h6, h7, h8, h9, h10, h11, h12, h13, h14⟩ := h
+  cases a; cases b
+  simp only [V2FileContract.mk.injEq]
+  exact ⟨h1, h2, h3, h4, h5, scoVal_inj h6, scoVal_inj h7, curVal_inj h8, curVal_inj h9, h10, h11, h12, h13, h14⟩
+
+theorem renewalVal_inj {a b : V2Renewal} (h : renewalVal a = renewalVal b) : a = b := by
+  simp only [renewalVal, rec, Val.pair.injEq, Val.bytes.injEq, and_true] at h
+  obtain ⟨h1, h2, h3, h4, h5, h6, h7⟩ := h
+  cases a; cases b
+  simp only [V2Renewal.mk.injEq]
+  exact ⟨scoVal_inj h1, scoVal_inj h2, curVal_inj h3, curVal_inj h4, fcVal_inj h5, h6, h7⟩
+
+theorem seVal_inj {a b : StateElement} (h : seVal a = seVal b) : a = b := by
+  simp only [seVal, rec, Val.pair.injEq, Val.nat.injEq, Val.list.injEq, and_true] at h
+  cases a; cases b
+  simp only [StateElement.mk.injEq]
+  exact ⟨h.1, bytesList_inj h.2⟩
+
+theorem cieVal_inj {a b : ChainIndexElement} (h : cieVal a = cieVal b) : a = b := by
+  simp only [cieVal, rec, Val.pair.injEq, Val.bytes.injEq, Val.nat.injEq, and_true] at h
+  obtain ⟨h1, h2, h3, h4⟩ := h
+  cases a; cases b
+  simp only [ChainIndexElement.mk.injEq]
+  exact ⟨seVal_inj h1, h2, h3, h4⟩
+
+theorem spVal_inj {a b : V2StorageProof} (h : spVal a = spVal b) : a = b := by
+  simp only [spVal, rec, Val.pair.injEq, Val.bytes.injEq, Val.list.injEq, and_true] at h
+  obtain ⟨h1, h2, h3⟩ := h
+  cases a; cases b
+  simp only [V2StorageProof.mk.injEq]
+  exact ⟨cieVal_inj h1, h2, bytesList_inj h3⟩
+
+theorem attVal_inj {a b : Attestation} (h : attVal a = attVal b) : a = b := by
+  simp only [attVal, rec, Val.pair.injEq, Val.bytes.injEq, and_true] at h
+  cases a; cases b
+  simp only [Attestation.mk.injEq]
+  exact h
+
+theorem optBytes_inj {a b : Option Bytes} (h : optBytes a = optBytes b) : a = b := by
+  cases a <;> cases b <;> simp_all [optBytes]
+
+/-! ## `strip` / `stripCode` and the semantic value -/
+
+@[simp] theorem nilSigs_nilSigs (fc : V2FileContract) : fc.nilSigs.nilSigs = fc.nilSigs := rfl
+@[simp] theorem renewal_nilSigs_nilSigs (r : V2Renewal) : r.nilSigs.nilSigs = r.nilSigs := rfl
+@[simp] theorem dropIndexProof_idem (p : V2StorageProof) : p.dropIndexProof.dropIndexProof = p.dropIndexProof := rfl
+
+@[simp] theorem stripBody_kind (b : V2ResolutionBody) : (stripBody b).kind = b.kind := by cases b <;> rfl
+@[simp] theorem payloadVal_stripBody (b : V2ResolutionBody) : payloadVal (stripBody b) = payloadVal b := by cases b <;> rfl
+@[simp] theorem stripBody_idem (b : V2ResolutionBody) : stripBody (stripBody b) = stripBody b := by cases b <;> rfl
+
+@[simp] theorem idOnlySc_id (e : SiacoinElement) : (idOnlySc e).id = e.id := rfl
+@[simp] theorem idOnlySf_id (e : SiafundElement) : (idOnlySf e).id = e.id := rfl
+@[simp] theorem idOnlyFc_id (e : V2FileContractElement) : (idOnlyFc e).id = e.id := rfl
+
+def stripRes (r : V2Resolution) : V2Resolution := { parent := idOnlyFc r.parent, body := stripBody r.body }
+
+theorem resVals_strip (rs : List V2Resolution) : resVals (rs.map stripRes) = resVals rs := by
+  induction rs with
+  | nil => rfl
+  | cons r rs ih => simp [resVals, stripRes, ih]
+
+theorem strip_kinds (t : V2Txn) : (strip t).kinds = t.kinds := by
+  simp [V2Txn.kinds, strip, List.map_map, Function.comp_def]
+
+theorem stripCode_kinds (b : Bool) (t : V2Txn) : (stripCode b t).kinds = t.kinds := by
+  cases b
+  · simp [stripCode, V2Txn.kinds, strip, List.map_map, Function.comp_def]
+  · simp [stripCode, strip_kinds]
+
+theorem stripCode_true (t : V2Txn) : stripCode true t = strip t := rfl
+
+/-- the semantic value only reads what `stripCode` keeps -/
+theorem semVal_stripCode (b : Bool) (t : V2Txn) : semVal b (stripCode b t) = semVal b t := by
+  have hres : resVals (t.resolutions.map fun r => ({ parent := idOnlyFc r.parent, body := stripBody r.body } : V2Resolution)) = resVals t.resolutions :=
+    resVals_strip t.resolutions
+  cases b <;>
+    simp [semVal, stripCode, strip, List.map_map, Function.comp_def, sfInVal, hres, rec]
+
+theorem semEncodeG_stripCode (b : Bool) (t : V2Txn) : semEncodeG b (stripCode b t) = semEncodeG b t := by
+  unfold semEncodeG
+  rw [semVal_stripCode, stripCode_kinds]
+
+/-- what `strip` keeps of a resolution is determined by the parent id and the payload value -/
+theorem stripRes_of_vals {r r' : V2Resolution} (hid : r.parent.id = r'.parent.id)
+    (hp : payloadVal r.body = payloadVal r'.body) : stripRes r = stripRes r' := by
+  have hb : stripBody r.body = stripBody r'.body := by
+    cases hr : r.body with
+    | renewal a =>
+      cases hr' : r'.body with
+      | renewal a' =>
+        rw [hr, hr'] at hp
+        simp only [payloadVal] at hp
+        simp [stripBody, renewalVal_inj hp]
+      | storageProof p' =>
+        rw [hr, hr'] at hp
+        simp [payloadVal, renewalVal, spVal, rec] at hp
+      | expiration =>
+        rw [hr, hr'] at hp
+        simp [payloadVal, renewalVal, rec] at hp
+    | storageProof p =>
+      cases hr' : r'.body with
+      | renewal a' =>
+        rw [hr, hr'] at hp
+        simp [payloadVal, renewalVal, spVal, rec] at hp
+      | storageProof p' =>
+        rw [hr, hr'] at hp
+        simp only [payloadVal] at hp
+        simp [stripBody, spVal_inj hp]
+      | expiration =>
+        rw [hr, hr'] at hp
+        simp [payloadVal, spVal, rec] at hp
+    | expiration =>
+      cases hr' : r'.body with
+      | renewal a' =>
+        rw [hr, hr'] at hp
+        simp [payloadVal, renewalVal, rec] at hp
+      | storageProof p' =>
+        rw [hr, hr'] at hp
+        simp [payloadVal, spVal, rec] at hp
+      | expiration => rfl
+  simp [stripRes, idOnlyFc, hid, hb]
+
+theorem resVals_inj : ∀ {rs rs' : List V2Resolution}, resVals rs = resVals rs' → rs.map stripRes = rs'.map stripRes
+  | [], [], _ => rfl
+  | [], _ :: _, h => by simp [resVals] at h
+  | _ :: _, [], h => by simp [resVals] at h
+  | r :: rs, r' :: rs', h => by
+    simp only [resVals, Val.pair.injEq, Val.bytes.injEq] at h
+    simp only [List.map_cons, List.cons.injEq]
+    exact ⟨stripRes_of_vals h.1 h.2.1, resVals_inj h.2.2⟩
+
+/-- equal semantic values ⇒ equal effect-bearing content as far as the code binds it -/
+theorem semVal_inj (b : Bool) {t t' : V2Txn} (h : semVal b t = semVal b t') : stripCode b t = stripCode b t' := by
+  simp only [semVal, rec, Val.pair.injEq, Val.list.injEq, Val.bytes.injEq, Val.nat.injEq, and_true] at h
+  obtain ⟨h1, h2, h3, h4, h5, h6, _, h8, h9, h10, h11, h12⟩ := h
+  have e1 : t.siacoinInputs.map (fun i => ({ parent := idOnlySc i.parent, satisfied := default } : V2SiacoinInput)) =
+      t'.siacoinInputs.map (fun i => { parent := idOnlySc i.parent, satisfied := default }) :=
+    map_eq_of_map_eq (fun a a' ha => by simp only [Val.bytes.injEq] at ha; simp [idOnlySc, ha]) h1
+  have e2 := map_inj_of_inj (fun a a' => scoVal_inj) h2
+  have e4 := map_inj_of_inj (fun a a' => sfoVal_inj) h4
+  have e5 : t.fileContracts.map (·.nilSigs) = t'.fileContracts.map (·.nilSigs) :=
+    map_eq_of_map_eq (fun a a' ha => fcVal_inj ha) h5
+  have e6 : t.revisions.map (fun r => ({ parent := idOnlyFc r.parent, revision := r.revision.nilSigs } : V2Revision)) =
+      t'.revisions.map (fun r => { parent := idOnlyFc r.parent, revision := r.revision.nilSigs }) :=
+    map_eq_of_map_eq (fun a a' ha => by
+      simp only [rec, Val.pair.injEq, Val.bytes.injEq, and_true] at ha
+      simp [idOnlyFc, ha.1, fcVal_inj ha.2]) h6
+  have e8 : t.resolutions.map (fun r => ({ parent := idOnlyFc r.parent, body := stripBody r.body } : V2Resolution)) =
+      t'.resolutions.map (fun r => { parent := idOnlyFc r.parent, body := stripBody r.body }) := resVals_inj h8
+  have e9 := map_inj_of_inj (fun a a' => attVal_inj) h9
+  have e11 := optBytes_inj h11
+  have e12 := curVal_inj h12
+  cases b
+  · have e3 : t.siafundInputs.map (fun i => ({ parent := idOnlySf i.parent, claimAddress := [], satisfied := default } : V2SiafundInput)) =
+        t'.siafundInputs.map (fun i => { parent := idOnlySf i.parent, claimAddress := [], satisfied := default }) :=
+      map_eq_of_map_eq (fun a a' ha => by
+        simp only [sfInVal, Bool.false_eq_true, if_false, Val.bytes.injEq] at ha
+        simp [idOnlySf, ha]) h3
+    simp only [stripCode, strip, Bool.false_eq_true, if_false, List.map_map, Function.comp_def]
+    rw [e1, e2, e3, e4, e5, e6, e8, e9, h10, e11, e12]
+  · have e3 : t.siafundInputs.map (fun i => ({ parent := idOnlySf i.parent, claimAddress := i.claimAddress, satisfied := default } : V2SiafundInput)) =
+        t'.siafundInputs.map (fun i => { parent := idOnlySf i.parent, claimAddress := i.claimAddress, satisfied := default }) :=
+      map_eq_of_map_eq (fun a a' ha => by
+        simp only [sfInVal, if_true, rec, Val.pair.injEq, Val.bytes.injEq, and_true] at ha
+        simp [idOnlySf, ha.1, ha.2]) h3
+    simp only [stripCode, strip, if_true]
+    rw [e1, e2, e3, e4, e5, e6, e8, e9, h10, e11, e12]
+
+/-! ## the semantic schema is well-formed; the encoding is injective among equal kind lists -/
+
+theorem payloadSch_wf (k : ResKind) : (payloadSch k).wf Env.default = true := by cases k <;> decide +kernel
+
+theorem resSch_wf : ∀ ks, (resSch ks).wf Env.default = true
+  | [] => rfl
+  | k :: ks => by
+    simp only [resSch, Sch.wf, Bool.and_eq_true]
+    exact ⟨by decide, payloadSch_wf k, resSch_wf ks⟩
+
+theorem semSch_wf (b : Bool) (ks : List ResKind) : (semSch b ks).wf Env.default = true := by
+  simp only [semSch, Sch.seq, Sch.wf, Bool.and_eq_true]
+  refine ⟨by decide +kernel, by decide +kernel, ?_, by decide +kernel, by decide +kernel, by decide +kernel, by decide +kernel,
+    resSch_wf ks, by decide +kernel, by decide +kernel, by decide +kernel, by decide +kernel, trivial⟩
+  cases b <;> decide +kernel
+
+/-- **injectivity of the semantic encoding** among well-formed transactions with the same list of
+resolution kinds: equal bytes ⇒ equal effect-bearing content (as far as the code binds it) -/
+theorem semEncodeG_inj (b : Bool) {t t' : V2Txn} (hw : WFG b t) (hw' : WFG b t') (hk : t.kinds = t'.kinds)
+    (h : semEncodeG b t = semEncodeG b t') : stripCode b t = stripCode b t' := by
+  unfold semEncodeG at h
+  unfold WFG at hw hw'
+  rw [hk] at h hw
+  exact semVal_inj b (C11.c11_injective Env.default_ok (semSch b t'.kinds) (semSch_wf b _) _ _ hw hw' h)
+
+theorem semEncodeG_of_stripCode (b : Bool) {t t' : V2Txn} (h : stripCode b t = stripCode b t') :
+    semEncodeG b t = semEncodeG b t' := by
+  rw [← semEncodeG_stripCode b t, ← semEncodeG_stripCode b t', h]
+
+/-- `strip` = what the code binds + the claim addresses -/
+theorem strip_eq_iff (t t' : V2Txn) :
+    strip t = strip t' ↔ (stripCode false t = stripCode false t' ∧
+      t.siafundInputs.map (·.claimAddress) = t'.siafundInputs.map (·.claimAddress)) := by
+  constructor
+  · intro h
+    refine ⟨by simp [stripCode, h], ?_⟩
+    have := congrArg (fun x => x.siafundInputs.map (·.claimAddress)) h
+    simpa [strip, List.map_map, Function.comp_def] using this
+  · rintro ⟨h, hc⟩
+    have hsf : (strip t).siafundInputs = (strip t').siafundInputs := by
+      have h3 := congrArg V2Txn.siafundInputs h
+      simp only [stripCode, strip, Bool.false_eq_true, if_false, List.map_map, Function.comp_def] at h3
+      simp only [strip]
+      -- both the claim-less projection and the claim addresses agree position by position
+      generalize t.siafundInputs = l at h3 hc
+      generalize t'.siafundInputs = l' at h3 hc
+      induction l generalizing l' with
+      | nil => cases l' <;> simp_all
+      | cons a l ih =>
+        cases l' with
+        | nil => simp at h3
+        | cons a' l' =>
+          simp only [List.map_cons, List.cons.injEq, V2SiafundInput.mk.injEq, and_true] at h3 hc ⊢
+          exact ⟨⟨h3.1, hc.1⟩, ih l' h3.2 hc.2⟩
+    have e := h
+    simp only [stripCode, Bool.false_eq_true, if_false] at e
+    have : strip t = { strip t with siafundInputs := (strip t).siafundInputs } := rfl
+    cases hs : strip t with
+    | mk a1 a2 a3 a4 a5 a6 a7 a8 a9 a10 a11 =>
+      cases hs' : strip t' with
+      | mk b1 b2 b3 b4 b5 b6 b7 b8 b9 b10 b11 =>
+        rw [hs, hs'] at e hsf
+        simp only [V2Txn.mk.injEq] at e hsf ⊢
+        exact ⟨e.1, e.2.1, hsf, e.2.2.2⟩
+
 end Sia.Ids
